@@ -156,8 +156,8 @@ func thorough(w *World, p *Property, results []*RuleResult, extra map[string]any
 			continue
 		}
 		var meta struct {
-			Seed  string `json:"seed"`
-			Prop  string `json:"breaks_property"`
+			Seed  string   `json:"seed"`
+			Prop  string   `json:"breaks_property"`
 			Rules []string `json:"rules_that_fired"`
 		}
 		if json.Unmarshal(b, &meta) != nil || meta.Prop != p.ID {
